@@ -9,3 +9,23 @@ claim(
     "Trusts numpy sort/searchsorted for the oracle; integer inputs limited to |v| < 2**40 so float64 holds them; NaN-free samples.",
     "Hypothesis PBT with brute-force oracle and metamorphic relations",
 )
+claim(
+    "C05",
+    "Generated-input search against a 40-digit mpmath reference: for every generated (class, data, per-datum scales over 16 "
+    "decades, residuals to 1e4 sigma, forward model, theta) the value must equal the sum of textbook log-densities to 1e-12 "
+    "relative (scipy.stats cross-checks the oracle), the gradient must equal the 40-digit numerical derivative of the reference "
+    "density chained through the true Jacobian, cost/cost_gradient are exact negatives, single-datum likelihoods integrate to 1 "
+    "by adaptive quadrature, and a missing Jacobian raises the documented ValueError.",
+    "Trusts mpmath arithmetic and scipy.integrate.quad; forward models limited to five analytic families.",
+    "Hypothesis PBT with high-precision reference oracle",
+)
+claim(
+    "C06",
+    "Generated-input search: per-class values/gradients/bounds against mpmath references inside, on the edge of and outside "
+    "the support; quad normalisation; joint priors over random ordered partitions (interleaved, descending, repeated classes) "
+    "checked entry by entry against the owner of each index; i.i.d. draws (seeded via the harness) KS-tested per coordinate "
+    "against the owner's exact CDF and checked to stay in the support; invalid index layouts must raise; Posterior sums and "
+    "negations exact; generate_initial_guesses checked with a recording prior (exactly m draws, k lowest costs in order).",
+    "KS alarms at p < 2e-13 per test; 'effectively -inf' taken as <= -1e30; sampling experiment uses 1500 (quick) / 20000 draws per layout.",
+    "Hypothesis PBT with reference model + exact-null KS tests",
+)
